@@ -24,6 +24,19 @@ def handle : Handler := fun op j =>
     some (Json.mkObj [("wsdl", nats (wsdlFetches w root)), ("order", nats (buildOrder w root)),
       ("passes", Json.arr ((buildOrder w root).map fun d => nats (passFetches w d)).toArray),
       ("all", nats (allFetches w root))])
+  | "reader.openall" =>
+    let c : DocCache := (jarr j "cache").toList.map fun e =>
+      ((asNat? ((asArr e)[0]?.getD Json.null)).getD 0, (asNat? ((asArr e)[1]?.getD Json.null)).getD 0)
+    let table : List (Nat × Outcome) := (jarr j "src").toList.map fun e =>
+      ((asNat? (jget e "u")).getD 0,
+       match jstr e "o" with
+       | "unreachable" => Outcome.unreachable
+       | "illFormed" => Outcome.illFormed
+       | _ => Outcome.doc (jnat e "d"))
+    let src : Nat → Outcome := fun u => ((table.find? (·.1 == u)).map (·.2)).getD .unreachable
+    let r := openAll c src ((jarr j "urls").toList.map fun u => (asNat? u).getD 0)
+    some (Json.mkObj [("docs", match r.1 with | some ds => nats ds | none => Json.null),
+                      ("cache", Json.arr (r.2.map fun e => Json.arr #[(e.1 : Json), (e.2 : Json)]).toArray)])
   | _ => none
 
 end Suds.Driver.C12
